@@ -278,3 +278,95 @@ Proof.
       * destruct (find_kid l ks) as [c|] eqn:Ef; [|reflexivity].
         apply find_kid_In in Ef. rewrite Forall_forall in IH. apply (IH (l, c) Ef).
 Qed.
+
+(* ------------------------------------------------------------------ every value SearchFirst may return *)
+Lemma tsearch_firsts_unfold : forall f vs ks,
+  tsearch_firsts f (Node vs ks) =
+  match f with
+  | [] => match vs with [] => [] | v :: _ => [v] end
+  | l :: rest =>
+      if is_hash l then
+        match vs with
+        | v :: _ => [v]
+        | [] => flat_map (fun kc : level * node => tsearch_firsts f (snd kc)) ks
+        end
+      else if is_plus l then flat_map (fun kc : level * node => tsearch_firsts rest (snd kc)) ks
+      else match find_kid l ks with Some c => tsearch_firsts rest c | None => [] end
+  end.
+Proof.
+  intros f vs ks. destruct f as [|l rest]; [reflexivity|]. simpl.
+  destruct (is_hash l).
+  - destruct vs; [|reflexivity]. apply flat_map_ext. intros [k c]. reflexivity.
+  - destruct (is_plus l).
+    + apply flat_map_ext. intros [k c]. reflexivity.
+    + induction ks as [|[k c] ks IH]; simpl; [reflexivity|].
+      destruct (level_eqb l k); [reflexivity | exact IH].
+Qed.
+
+Lemma flat_map_nil_iff : forall (A B : Type) (h : A -> list B) l,
+  flat_map h l = [] <-> forall x, In x l -> h x = [].
+Proof.
+  induction l as [|a l IH]; simpl.
+  - split; [intros _ x [] | reflexivity].
+  - split.
+    + intros H x [<- | Hx]; apply app_eq_nil in H; [exact (proj1 H) | apply IH; [exact (proj2 H) | exact Hx]].
+    + intros H. rewrite (H a (or_introl eq_refl)). apply IH. intros x Hx. apply H. right. exact Hx.
+Qed.
+
+(* the candidates are answers of Search, and there is a candidate exactly when Search finds something *)
+Lemma tsearch_firsts_sound : forall t f,
+  (forall v, In v (tsearch_firsts f t) -> In v (tsearch_raw f t)) /\
+  (tsearch_firsts f t = [] <-> tsearch_raw f t = []).
+Proof.
+  intros t. induction t as [vs ks IH] using node_ind2. intros f. rewrite Forall_forall in IH.
+  rewrite tsearch_firsts_unfold, tsearch_raw_unfold. destruct f as [|l rest].
+  - destruct vs as [|x vs]; split; try (intros v []); try tauto.
+    + intros v [<- | []]. left. reflexivity.
+    + split; discriminate.
+  - destruct (is_hash l).
+    + destruct vs as [|x vs].
+      * simpl app. split.
+        -- intros v Hv. apply in_flat_map in Hv. destruct Hv as [kc [Hkc Hv]].
+           apply in_flat_map. exists kc. split; [exact Hkc | apply (proj1 (IH kc Hkc _)); exact Hv].
+        -- rewrite !flat_map_nil_iff. split; intros H kc Hkc; apply (IH kc Hkc (l :: rest)); apply H; exact Hkc.
+      * split; [intros v [<- | []]; left; reflexivity | split; discriminate].
+    + destruct (is_plus l).
+      * split.
+        -- intros v Hv. apply in_flat_map in Hv. destruct Hv as [kc [Hkc Hv]].
+           apply in_flat_map. exists kc. split; [exact Hkc | apply (proj1 (IH kc Hkc _)); exact Hv].
+        -- rewrite !flat_map_nil_iff. split; intros H kc Hkc; apply (IH kc Hkc rest); apply H; exact Hkc.
+      * destruct (find_kid l ks) as [c|] eqn:Ef; [|split; [intros v [] | tauto]].
+        apply find_kid_In in Ef. exact (IH (l, c) Ef rest).
+Qed.
+
+Lemma fold_later_in : forall (g : level * node -> option N) (h : level * node -> list N) ks a v,
+  (forall kc w, In kc ks -> g kc = Some w -> In w (h kc)) ->
+  fold_left later (map g ks) a = Some v -> a = Some v \/ In v (flat_map h ks).
+Proof.
+  induction ks as [|kc ks IH]; intros a v Hg H; simpl in H; [left; exact H|].
+  destruct (IH (later a (g kc)) v (fun kc' w Hin => Hg kc' w (or_intror Hin)) H) as [H1 | H1].
+  - destruct (g kc) as [w|] eqn:E; simpl in H1.
+    + inversion H1; subst. right. simpl. apply in_or_app. left. apply (Hg kc v); [left; reflexivity | exact E].
+    + left. exact H1.
+  - right. simpl. apply in_or_app. right. exact H1.
+Qed.
+
+(* the model's own SearchFirst (list order of the children) is one of the candidates *)
+Lemma tsearch_first_candidate : forall t f v, tsearch_first f t = Some v -> In v (tsearch_firsts f t).
+Proof.
+  intros t. induction t as [vs ks IH] using node_ind2. intros f v. rewrite Forall_forall in IH.
+  rewrite tsearch_first_unfold, tsearch_firsts_unfold. destruct f as [|l rest].
+  - destruct vs; simpl; [discriminate|]. intros H. inversion H. left. reflexivity.
+  - destruct (is_hash l).
+    + destruct vs as [|x vs]; simpl hd_opt; cbv iota.
+      * intros H. apply (fold_later_in _ (fun kc => tsearch_firsts (l :: rest) (snd kc))) in H.
+        -- destruct H as [H | H]; [discriminate | exact H].
+        -- intros kc w Hkc Hw. apply (IH kc Hkc). exact Hw.
+      * intros H. inversion H. left. reflexivity.
+    + destruct (is_plus l).
+      * intros H. apply (fold_later_in _ (fun kc => tsearch_firsts rest (snd kc))) in H.
+        -- destruct H as [H | H]; [discriminate | exact H].
+        -- intros kc w Hkc Hw. apply (IH kc Hkc). exact Hw.
+      * destruct (find_kid l ks) as [c|] eqn:Ef; [|discriminate].
+        apply find_kid_In in Ef. apply (IH (l, c) Ef).
+Qed.
